@@ -6,13 +6,15 @@
    Spec       Graph/AddExprSpec.v  shape (L is the application tree of e), flow (the triples the
                                    property prescribes for L), names, tree (first-order), wfb
    Proofs     Graph/AddExprProofs.v
+              Graph/AddExprParams.v  the same on the larger domain wfp (function-typed parameters
+                                     handed on as arguments), additive
 
    The theorems are about the REPAIRED code (proposed_fixes/C08.diff, [pinned := false]);
    C08_pinned_refuted is about the code as pinned.
    Property theorems only; each is closed by [exact] of a library lemma. *)
 From Coq Require Import List Arith Bool.
 Import ListNotations.
-From TF Require Import Graph.AddExpr Graph.AddExprSpec Graph.AddExprProofs.
+From TF Require Import Graph.AddExpr Graph.AddExprSpec Graph.AddExprProofs Graph.AddExprParams.
 
 (* For every well-formed expression (any depth, any number of function-typed
    arguments, nested higher-order operators, abstractions left by expanding
@@ -61,6 +63,34 @@ Theorem C08_step : forall add_from, add_from_ok add_from ->
                 Post vs en e c st L st'.
 Proof. exact add_expr_step. Qed.
 Print Assumptions C08_step.
+
+(* The code decides "the argument is a function" on the followed type (a4e52c5), so a
+   function-typed PARAMETER of an enclosing abstraction that is handed on as an
+   argument gets an internal node as well: the parameter's node (the enclosing
+   internal node) is fed by it.  C08_flow on that larger domain (wfb vs e = true
+   implies wfp vs e = true, shape implies shapep). *)
+Theorem C08_flow_params : forall add_from, add_from_ok add_from ->
+  forall e, wfp [] e = true ->
+  exists L st',
+    add_expr add_from false e None g_empty = Some (lnode L, st') /\
+    shapep (srcmap (g_memo st')) [] e L /\
+    NoDup (names L) /\
+    (forall i j n, srcmap (g_memo st') i = Some n -> srcmap (g_memo st') j = Some n -> i = j) /\
+    (forall i n, srcmap (g_memo st') i = Some n -> ~ In n (names L)) /\
+    (forall t, vis t -> (In t (g_tr st') <-> In t (flow L))).
+Proof. exact add_expr_flow_g. Qed.
+Print Assumptions C08_flow_params.
+
+Theorem C08_step_params : forall add_from, add_from_ok add_from ->
+  forall e vs en c st, wfp vs e = true -> Inv st -> cur_ok c st -> env_ok vs en (g_memo st) ->
+  exists L st', add_expr add_from false e (Some c) st = Some (lnode L, st') /\
+                PostG vs en e c st L st'.
+Proof. exact add_expr_step_g. Qed.
+Print Assumptions C08_step_params.
+
+Theorem C08_domain_extends : forall vs e, wfb vs e = true -> wfp vs e = true.
+Proof. exact wfb_wfp. Qed.
+Print Assumptions C08_domain_extends.
 
 (* The wiring of one more argument is symmetric although the code builds it
    incrementally and asymmetrically (earlier arguments by the loop at
@@ -123,3 +153,7 @@ Example C08_ex_nested_graph :
 Proof.
   eexists. split; [vm_compute; reflexivity|]. intros t. cbn. tauto.
 Qed.
+
+(* a function-typed parameter handed on: in wfp, not in wfb; its graph *)
+Example C08_ex_param : wfp [] ex_param = true /\ wfb [] ex_param = false.
+Proof. exact ex_param_domain. Qed.
